@@ -298,6 +298,9 @@ func ExprString(e *N) string {
 		return "(!" + ExprString(e.Ns[0]) + ")"
 	case "neg":
 		return "(-(" + ExprString(e.Ns[0]) + "))"
+	case "recv":
+		// receive expression from a host-made buffered channel holding the operand
+		return "(<-gch(" + ExprString(e.Ns[0]) + "))"
 	case "negb":
 		// bare unary minus in front of a call or a name (no parentheses around it)
 		return "-" + ExprString(e.Ns[0])
